@@ -27,7 +27,7 @@ from mashumaro.mixins.toml import DataClassTOMLMixin
 from mashumaro.config import BaseConfig, TO_DICT_ADD_BY_ALIAS_FLAG, TO_DICT_ADD_OMIT_NONE_FLAG, ADD_DIALECT_SUPPORT, ADD_SERIALIZATION_CONTEXT
 from mashumaro.dialect import Dialect
 from mashumaro.types import SerializableType, GenericSerializableType, SerializationStrategy, RoundedDecimal, Discriminator, Alias
-ROOTS = []; MAKE = {}; CODECS = []; CLASSES = []; IDENT = []; DIALECTS = []
+ROOTS = []; MAKE = {}; CODECS = []; CLASSES = []; IDENT = []; DIALECTS = []; ROUNDTRIP = []
 '''
 
 MIXINS = ["DataClassDictMixin", "DataClassJSONMixin", "DataClassORJSONMixin", "DataClassMessagePackMixin",
@@ -406,6 +406,7 @@ class G:
         # required first, then defaulted
         ndef = r.randrange(0, nf + 1)
         body = []
+        user_code_fields = set()
         seen_default = False
         for i, (fn, t, v) in enumerate(fields):
             has_default = i >= nf - ndef or seen_default
@@ -429,6 +430,8 @@ class G:
                 self.tags.add("field:strategy")
             elif c < 0.26 and t == "bytes":
                 meta = "metadata=field_options(serialize='omit')"
+            if meta:
+                user_code_fields.add(fn)
             if t.startswith("Final["):
                 has_default = True
             seen_default = seen_default or has_default
@@ -471,7 +474,8 @@ class G:
         self.classes.append(n)
         self.tags.add("mixin:" + (mixin or "plain"))
         for fn, t, v in fields:
-            self.note_ident(n, fn, t)
+            if fn not in user_code_fields:       # field-level serialize/deserialize/strategy: the user's code decides the class
+                self.note_ident(n, fn, t)
         if mixin:
             self.dc_names.append(n)
         return n
@@ -788,3 +792,104 @@ def gen_identity_schema(rng: random.Random, idx: int, template: str | None = Non
         L += ident
     src = PRELUDE + "\n".join(L) + "\n"
     return {"src": src, "module": module, "tags": sorted(tags), "defloc": "identity:" + t, "idx": idx, "template": t}
+
+
+# ---------------------------------------------------------------------------
+# family "latename": a helper function (union / type-var / literal / discriminator unpacker or packer)
+# is compiled BEFORE the enclosing method registers further names, and refers back to the class being
+# built: any divergence between "namespace at exec time", "namespace at first call" and the builder's
+# globals shows up as an unresolved name in the helper
+# ---------------------------------------------------------------------------
+
+# members that cannot be mistaken for the class itself or for each other on the wire (the round trip must be exact)
+LATE_MEMBERS = [("int", "3"), ("str", "'s'"), ("None", "None"), ("List[int]", "[1]"), ("bool", "True"), ("float", "1.5")]
+
+
+def gen_latename_schema(rng: random.Random, idx: int) -> dict:
+    module = f"c17l_{idx}"
+    tags = set()
+    L = []
+    n = "Node"
+    form = rng.choice(["union-self", "union-self", "union-name", "container-union-self", "typevar-constrained", "discriminated-self",
+                       "mutual", "nested-holder", "literal-and-self", "optional-self"])
+    tags.add("late:" + form)
+    local = rng.random() < 0.3 and form not in ("union-name", "mutual")
+    entry = rng.choice(["codec", "codec", "mixin", "both"])
+    tags.add("late-entry:" + entry)
+    mixin = rng.choice(MIXINS[:4]) if entry in ("mixin", "both") else ""
+    base = f"({mixin})" if mixin else ""
+    others = rng.sample(LATE_MEMBERS, rng.choice([1, 2, 3]))
+    # keep decoding unambiguous for the round trip: the leaf value is the first non-None other member
+    leaf_t, leaf_v = next(((t, v) for t, v in others if t != "None"), ("int", "3"))
+    if all(t == "None" for t, _ in others):
+        others.append((leaf_t, leaf_v))
+    ref = "Self" if form != "union-name" else f"'{n}'"
+    members = [ref] + [t for t, _ in others]
+    if rng.random() < 0.5:
+        rng.shuffle(members)
+    u = f"Union[{', '.join(members)}]"
+    extra_decl = []
+    roundtrip = True
+    if form in ("union-self", "union-name"):
+        fields = [f"    child: {u} = {leaf_v if leaf_t in ('int', 'str', 'bool', 'float') else 'None' if 'None' in members else 'field(default_factory=lambda: ' + leaf_v + ')'}"]
+        if "None" not in members and leaf_t not in ("int", "str", "bool", "float"):
+            fields = [f"    child: {u} = field(default_factory=lambda: {leaf_v})"]
+        val = f"{n}({n}({leaf_v}))"
+    elif form == "container-union-self":
+        c = rng.choice(["List[{u}]", "Dict[str, {u}]", "Tuple[{u}, ...]", "Optional[List[{u}]]"])
+        fields = [f"    child: {c.format(u=u)} = field(default_factory=lambda: {'{}' if c.startswith('Dict') else '()' if c.startswith('Tuple') else '[]'})"]
+        inner = f"{n}()"
+        val = f"{n}({{'k': {inner}}})" if c.startswith("Dict") else f"{n}(({inner}, {leaf_v}))" if c.startswith("Tuple") else f"{n}([{inner}, {leaf_v}])"
+    elif form == "typevar-constrained":
+        extra_decl.append(f"TV = TypeVar('TV', {leaf_t if leaf_t != 'None' else 'int'}, str)")
+        fields = [f"    x: TV = {leaf_v if leaf_t in ('int', 'str', 'bool', 'float') else repr('s')}", f"    child: {u} = None" if "None" in members else f"    child: Optional[{u}] = None"]
+        base = f"({mixin + ', ' if mixin else ''}Generic[TV])"
+        val = f"{n}(child={n}())"
+    elif form == "discriminated-self":
+        fields = [f"    kind: Literal['n'] = 'n'", f"    child: Union[Annotated[Self, Discriminator(field='kind', include_subtypes=True)], int, None] = None"
+                  if rng.random() < 0.5 else f"    child: {u} = None" if "None" in members else f"    child: Optional[{u}] = None"]
+        val = f"{n}(child={n}())"
+    elif form == "mutual":
+        extra_decl.append(f"@dataclass\nclass Other{base}:\n    back: Union['{n}', int, None] = None")
+        fields = [f"    child: Union[Other, str, None] = None"]
+        val = f"{n}(Other({n}(Other(3))))"
+    elif form == "nested-holder":
+        fields = [f"    child: {u} = None" if "None" in members else f"    child: Optional[{u}] = None"]
+        val = f"{n}({n}())"
+    elif form == "literal-and-self":
+        fields = [f"    tag: Literal['a', 1, None] = 'a'", f"    child: {u} = None" if "None" in members else f"    child: Optional[{u}] = None"]
+        val = f"{n}('a', {n}(1))"
+    else:   # optional-self (inlined, the shape the upstream tests cover)
+        fields = ["    child: Optional[Self] = None", "    kids: List[Self] = field(default_factory=list)"]
+        val = f"{n}({n}(), [{n}()])"
+    L += extra_decl
+    L.append(f"@dataclass\nclass {n}{base}:\n" + "\n".join(fields))
+    L.append(f"MAKE[{n!r}] = lambda: {val}")
+    holder_val = None
+    if form == "nested-holder":
+        L.append(f"@dataclass\nclass Holder{('(' + mixin + ')') if mixin else ''}:\n    inner: {n}\n    more: List[{n}] = field(default_factory=list)")
+        L.append(f"MAKE['Holder'] = lambda: Holder({val}, [{val}])")
+        holder_val = "Holder"
+    top = holder_val or n
+    if entry in ("mixin", "both"):
+        L.append(f"ROOTS.append({top})")
+    if entry in ("codec", "both"):
+        for kind in rng.sample(["basic", "json", "orjson", "msgpack", "yaml"], rng.choice([1, 2])):
+            if mixin and entry == "both":
+                # the same class through a codec as well (codecs build their own, not nailed, functions)
+                L.append(f"CODECS.append(({kind!r}, {top}, MAKE[{top!r}], None))")
+            else:
+                L.append(f"CODECS.append(({kind!r}, {top}, MAKE[{top!r}], None))")
+            tags.add("codec:" + kind)
+    names = [n] + (["Holder"] if holder_val else []) + (["Other"] if form == "mutual" else [])
+    L.append(f"CLASSES.extend([{', '.join(names)}])")
+    L.append(f"ROUNDTRIP.extend([{', '.join(names)}])")
+    if form in ("union-self", "union-name", "nested-holder", "literal-and-self"):
+        L.append(f"IDENT.append(({n}, 'child', {n}))")
+    if local:
+        src = PRELUDE + wrap_local(L, [])
+        tags.add("scope:function")
+    else:
+        src = PRELUDE + "\n".join(L) + "\n"
+        tags.add("scope:module")
+    return {"src": src, "module": module, "tags": sorted(tags), "defloc": "latename:" + form, "idx": idx, "template": form}
